@@ -264,6 +264,9 @@ def run_step(e, t, opts):
         nat.close(th['strategy'])
         fake_t = dict(stale=[], rm=[cur.index(d) for d in removed])
         check_after_close(e, nat.inner, snap, cur, fake_t, new2, nvb, dict(opts, check_inv=False))
+    record_env_path(e, nat.inner)
+    if not opts.get('env_pairs'):
+        check_env(e)
     if opts.get('final', True):
         check_definition(e, nat.inner, opts)
 
@@ -313,8 +316,79 @@ def _mod_ok(o, a):
     return z3.Or(*[z3.And(a == al, o % al == 0) for al in ALIGNS])
 
 
+def record_env_path(e, b):
+    """C19: remember, for a path that consulted the environment, its path condition and the offsets it
+    produced; paths of one task are compared pairwise afterwards (same inputs, other environment)."""
+    if e.env_reads == 0:
+        return
+    defs = Layout.defs_of(b)
+    variants = Layout.variants_of(b)
+    outs = [(d.fields[0].fields[0], Layout.info(d)[0]) for d in defs]
+    order = [x.fields[0] for x in variants[-1].fields[1].items] if variants else []
+    if not hasattr(e, 'path_records'):
+        e.path_records = []
+    e.path_records.append(dict(conds=list(e.solver.assertions()), outs=outs, order=order))
+
+
+def env_pairs(e):
+    """Pairwise query over the recorded paths: is there one request history for which two environments
+    give different offsets / list orders? Returns a list of (message, model)."""
+    recs = getattr(e, 'path_records', [])
+    out = []
+    if len(recs) < 2:
+        return out
+    import z3 as _z3
+    def rename(conds, suffix):
+        env = set()
+        def collect(t):
+            if _z3.is_const(t) and t.decl().kind() == _z3.Z3_OP_UNINTERPRETED and str(t).startswith('env_'):
+                env.add(t)
+            for c in t.children():
+                collect(c)
+        for c in conds:
+            if _z3.is_expr(c):
+                collect(c)
+        sub = [(v, _z3.Int(str(v) + suffix) if _z3.is_int(v) else _z3.Bool(str(v) + suffix)) for v in env]
+        return [_z3.substitute(c, *sub) if (sub and _z3.is_expr(c)) else c for c in conds], sub
+    for i in range(len(recs)):
+        for j in range(i + 1, len(recs)):
+            a, b_ = recs[i], recs[j]
+            ca, _ = rename(a['conds'], '__A')
+            cb, _ = rename(b_['conds'], '__B')
+            diffs = []
+            if a['order'] != b_['order']:
+                diffs.append(_z3.BoolVal(True))
+            bo = dict(b_['outs'])
+            for k, oa in a['outs']:
+                if k in bo:
+                    d = (oa != bo[k])
+                    if isinstance(d, bool):
+                        if d:
+                            diffs.append(_z3.BoolVal(True))
+                    else:
+                        diffs.append(d)
+            if not diffs:
+                continue
+            s = _z3.Solver()
+            s.add(*[c for c in ca if _z3.is_expr(c)])
+            s.add(*[c for c in cb if _z3.is_expr(c)])
+            s.add(_z3.Or(*diffs))
+            if s.check() == _z3.sat:
+                m = s.model()
+                md = {str(d): (m[d].as_long() if hasattr(m[d], 'as_long') else str(m[d])) for d in m.decls()}
+                out.append(('C19: one request history, two environments (e.g. hash iteration orders) give different offsets or list orders', md))
+                return out
+    return out
+
+
+def check_env(e):
+    e.verify(e.env_reads == 0, 'C19: the builder / strategy code consulted its environment (hash iteration order, addresses, clock, process '
+             'environment): %d reads on this path' % e.env_reads)
+
+
 def check_definition(e, b, opts):
     """build(), capacity, alignment, Display: C02 (capacity / record alignment) and C13 (no panic)."""
+    check_env(e)
     e.flush_checks()
     defn = Agg('RecordDefinition', None, [b.fields[0], b.fields[1]])
     dcell = [defn]
